@@ -8,10 +8,12 @@ from collections import Counter
 
 
 def key(desc):
+    right = desc.get("right")
     return json.dumps(
         [desc["prefix"], sorted(desc["patterns"]), "".join(sorted(desc["alphabet"])),
          bool(desc["just_prefix"]), sorted(map(tuple, desc["stats"])),
-         bool(desc.get("proper")) and not desc["just_prefix"]]
+         bool(desc.get("proper")) and not desc["just_prefix"],
+         None if right is None else json.loads(key(dict(right, stats=desc["stats"])))]
     )
 
 
@@ -24,13 +26,24 @@ def desc_of(comb_class):
         "just_prefix": bool(comb_class.just_prefix),
         "stats": [list(s) for s in comb_class.stats],
         "proper": bool(comb_class.proper),
+        "right": None if comb_class.right is None else desc_of(comb_class.right),
     }
 
 
 @functools.lru_cache(maxsize=200000)
 def _objects(k, n):
-    prefix, patterns, alphabet, just_prefix, stats, proper = json.loads(k)
+    prefix, patterns, alphabet, just_prefix, stats, proper, right = json.loads(k)
     out = []
+    if right is not None:
+        # pairs u|v: u from the left description, v from the right one, '|' counts as a letter
+        left_k = json.dumps([prefix, patterns, alphabet, just_prefix, stats, proper, None])
+        right_k = json.dumps(right)
+        for i in range(n):
+            lefts = _objects(left_k, i)
+            if lefts:
+                for v in _objects(right_k, n - 1 - i):
+                    out.extend(u + "|" + v for u in lefts)
+        return tuple(out)
     if any(p in prefix for p in patterns):
         return ()
     if just_prefix:
@@ -71,9 +84,10 @@ def _terms(k, n):
 
 
 def _desc_from_key(k):
-    prefix, patterns, alphabet, just_prefix, stats, proper = json.loads(k)
+    prefix, patterns, alphabet, just_prefix, stats, proper, right = json.loads(k)
     return {"prefix": prefix, "patterns": patterns, "alphabet": alphabet,
-            "just_prefix": just_prefix, "stats": stats, "proper": proper}
+            "just_prefix": just_prefix, "stats": stats, "proper": proper,
+            "right": None if right is None else _desc_from_key(json.dumps(right))}
 
 
 def terms(desc, n):
@@ -91,6 +105,8 @@ def objects_by_params(desc, n):
 def is_empty(desc):
     """No object of any size.  Decided from the enumeration itself: a word class is
     non-empty iff it has an object of size |prefix| or |prefix|+1."""
+    if desc.get("right") is not None:
+        return is_empty(dict(desc, right=None)) or is_empty(dict(desc["right"], stats=desc["stats"]))
     n = len(desc["prefix"])
     return not objects(desc, n) and not objects(desc, n + 1)
 
